@@ -238,7 +238,15 @@ def run(ctx):
                 'tiny floats, negatives, crossing TLC\'s 32-bit integers as exact binary expansions), axioms per row/pair/triple. '
                 'sort / dictable.sort: every list / table TLC enumerates (S2C inputs with the CmpModel / CmpModelX result, small and '
                 'large-magnitude universes) plus random longer ones, judged by Trace_Order against the real cmp (adjacent and distant '
-                'pairs of a sorted list). Non-trivial = input not already sorted; distinct by input.')
+                'pairs of a sorted list). Sort SESSIONS (spec/OrderSess.tla): TLC enumerates, over seed heaps of two tables (one without '
+                'column a), two caller-owned order lists and a value list, every single call (sort by names / key function / explicit value '
+                'orders given as the caller\'s list objects / sort() and sorted(key=Cmp) of a list), every ordered pair of calls, and every '
+                '"call ; the caller edits an object the call touched - operand, RESULT or order list; item / attribute / update / element '
+                'assignment; reversed, rotated, re-typed int<->float - ; the same call again on the operand or on the result" (thorough: '
+                'also simulated sessions of 6 free steps); the trace specification tracks the heap and judges every call by the '
+                'single-call clauses on the operands as they are at that moment, plus: no call changes an existing object, an edit changes '
+                'the edited object only. A second cmp matrix holds dicts whose keys are not strings. Non-trivial = input not already '
+                'sorted; distinct by input / by history.')
     if os.environ.get('VERIF_C07_REPORT_PROPOSED') != '1':      # proposed known findings (props/c07.known.json): reported as KNOWN-FINDING, not as violations
         with open(os.path.join(os.path.dirname(os.path.abspath(__file__)), 'c07.known.json')) as f:
             have = {k['id'] for k in ctx.known}
@@ -261,9 +269,15 @@ def run(ctx):
     mat2_path, tags2, M2, rows2 = matrix2_obs(ctx, vals2)
     obs += rows2
     # --- S2C: sort sessions enumerated by TLC (every call, every ordered pair of calls, call ; edit of a touched object ; same call again) ---
-    sessions = ctx.generate('MC_OrderSess', 'MC_OrderSess_gen.cfg')
+    sessions = ctx.generate('MC_OrderSess', 'MC_OrderSess_gen.cfg' if ctx.quick else 'MC_OrderSess_gent.cfg')
     if not ctx.quick:
-        sessions += ctx.generate('MC_OrderSess', 'MC_OrderSess_sim.cfg', simulate=4000, depth=7, seed=ctx.seed + 1, workers=1)
+        sessions += ctx.generate('MC_OrderSess', 'MC_OrderSess_sim.cfg', simulate=1200, depth=8, seed=ctx.seed + 1, workers=1)      # free sessions of 6 steps
+    seen, uniq = set(), []
+    for c in sessions:
+        k = json.dumps([c['seed'], c['hist']])
+        if k not in seen:
+            seen.add(k); uniq.append(c)
+    sessions = uniq
     sess_disagree = 0
     for c in sessions:
         o = session_obs(c); obs.append(o)
@@ -373,6 +387,12 @@ def run(ctx):
                         'with an int of that size cmp may tie numbers that differ (CoarseTie: the statement pins 0 only for equal numbers) but '
                         'never order them against the exact order; two floats follow the native order; transitivity decides which ties are lawful',
                         'dictable.sort may order rows by cmp or by cmp refined with the exact numeric order on CoarseTie pairs (Python\'s own order)',
+                        'a value listed twice in an explicit order may take the position of its first or of its last occurrence (DupReading); every '
+                        'listed value ranks before every unlisted one',
+                        'sessions: key columns are given by name (sort(*names)); sort([names]) - a list as ONE positional argument - is not a '
+                        'call form of the statement (today it orders by the alphabetically sorted names) and is not exercised; a sort without keys '
+                        'and a sort of an empty table return a shallow copy that shares the column lists and are not part of the sessions',
+                        'proposed known findings props/c07.known.json are applied unless VERIF_C07_REPORT_PROPOSED=1',
                         ]
 
 
